@@ -312,18 +312,24 @@ class World:
                 rec(c, [n] + chain, f"{xp}/@{f}[{i or '0'}]{cname(c)}")
 
         rec(root, [], f"/@root[0]{cname(root)}")
+        sample = chains[:25]
+        # the structural queries come first: whatever xpaths an EARLIER calculation left on these nodes (possibly
+        # stale by now) must not influence them; only then the xpaths are calculated afresh and compared
+        self.check_structure_queries(sample, chains, kind)
         did_xpath = root.calculate_xpath()
         if not did_xpath:
             raise self.viol("C18.5 calculate_xpath", f"C18.5:refused:{kind}", "calculate_xpath() refused an attached root")
-        sample = chains[:25]
         for n, chain, xp in sample:
+            if n.xpath != xp:
+                raise self.viol("C18.5 xpath", f"C18.5:xpath:{kind}", f"after {kind}: xpath {n.xpath!r}, structure spells {xp!r}")
+
+    def check_structure_queries(self, sample: list[tuple[Any, list[Any], str]], chains: list[tuple[Any, list[Any], str]], kind: str) -> None:
+        for n, chain, _xp in sample:
             anc = list(n.ancestors())
             if len(anc) != len(chain) or any(a is not b for a, b in zip(anc, chain)):
                 raise self.viol("C18.5 ancestors", f"C18.5:ancestors:{kind}", f"after {kind}: ancestors() of a {cname(n)} disagrees with the structure")
             if n.get_depth() != len(chain):
                 raise self.viol("C18.5 depth", f"C18.5:depth:{kind}", f"after {kind}: get_depth() = {n.get_depth()}, structure says {len(chain)}")
-            if n.xpath != xp:
-                raise self.viol("C18.5 xpath", f"C18.5:xpath:{kind}", f"after {kind}: xpath {n.xpath!r}, structure spells {xp!r}")
         for n, chain, _xp in sample[:12]:
             for m, _c2, _x2 in sample[:12]:
                 want = any(m is a for a in chain)
